@@ -748,8 +748,8 @@ def mr_cases(draw, keys=("q", "qd", "qdd", "tau", "g", "F"), nmax=7):
 @st.composite
 def energy_cases(draw):
     # smaller chains are drawn more often: a case costs 800 ForwardDynamics evaluations of n+3 recursions each
-    nmax = draw(st.sampled_from([1, 2, 3, 3, 4, 4, 5, 6, 7]))
-    c = draw(mechanisms(1, nmax))
+    n = draw(st.sampled_from([1, 2, 2, 3, 3, 3, 4, 4, 5, 6, 7]))
+    c = draw(mechanisms(n, n))
     n = c["S"].shape[1]
     c["q"] = np.array([draw(joint_values(2.5, tiny=False)) for _ in range(n)])
     c["qd"] = draw(vecs(n, 2.0))
